@@ -18,6 +18,12 @@ import (
 // fragmentation of the peer's handshake messages into records of 1, 7, 100 bytes or whole messages
 // (all of which are conformant framings) x data exchanges; both sides must complete, gmref must
 // verify every signature and Finished value the library produced, and data must arrive intact.
+// RefInteropUnit is shared with C18 (handshake message decoders under every framing of the messages
+// into records: whole, fragmented, several per record).
+func RefInteropUnit(libIsClient bool, suite uint16) harness.Unit {
+	return refInteropUnit(libIsClient, suite)
+}
+
 func refInteropUnit(libIsClient bool, suite uint16) harness.Unit {
 	return harness.Unit{Name: fmt.Sprintf("reference-peer-interop/library-client=%v/%04x", libIsClient, suite), Run: func(c *harness.Ctx) {
 		p := tlsk.Get()
